@@ -21,7 +21,8 @@ ASSUMPTIONS = ['identity map is injective with targets in [0, len(self))', 'term
 STUBS = []
 
 O_TOPO = {
-    'bond': {2: [[(0, 1)], [(1, 0)]], 3: [[(0, 1), (1, 2)], [(2, 0)], [(1, 2), (2, 1)]]},
+    'bond': {2: [[(0, 1)], [(1, 0)]], 3: [[(0, 1), (1, 2)], [(2, 0)], [(1, 2), (2, 1)]],
+             11: [[(7, 8), (10, 9), (3, 10), (8, 7)]], 36: [[(20, 21), (35, 31), (5, 33), (32, 2)]], 40: [[(0, 39), (31, 32), (33, 7)]]},
     'angle': {3: [[(0, 1, 2)], [(2, 0, 1), (1, 2, 0)]]},
     'dihedral': {3: [[(0, 1, 2, 0)]], 4: [[(0, 1, 2, 3)], [(3, 2, 1, 0), (0, 2, 1, 3)]]},
     'improper': {4: [[(1, 0, 2, 3)]], 3: [[(2, 1, 0, 1)]]},
@@ -60,6 +61,14 @@ def instances(tier, seed):
     # repeated extension with the same fragment (as replace does): extend_types once, extend twice
     add("ext:bond:twice", Ns=3, No=2, kind='bond', S=1, topo=0, tables='both', mode='twice', cost=60)
     add("ext:bond:twice-same-map-object", Ns=3, No=2, kind='bond', S=1, topo=0, tables='both', mode='twice-same-map', cost=30)
+    # a long fragment most of whose leading atoms are declared identical to existing ones: the appended atoms are 7..10 of 11 (and 20..35
+    # of 36) - still "in order" (concrete shape and map, all per-atom data symbolic: one path)
+    add("ext:bond:long-fragment:11-atoms-7-mapped", Ns=8, No=11, kind='bond', S=1, topo=0, tables='both', mode='bigmap', nmapped=7, cost=10)
+    add("ext:bond:long-fragment:36-atoms-20-mapped", Ns=21, No=36, kind='bond', S=1, topo=0, tables='both', mode='bigmap', nmapped=20, cost=20)
+    add("ext:bond:long-fragment:40-atoms-none-mapped", Ns=2, No=40, kind='bond', S=1, topo=0, tables='both', mode='bigmap', nmapped=0, cost=20)
+    # the same fragment OBJECT extended twice with default type merging, re-parameterised in between (new labels, masses, coefficient
+    # texts, one more coefficient row): the second call must bring the fragment's tables as they are at the time of that call
+    add("ext:bond:twice-default-reparameterised", Ns=3, No=2, kind='bond', S=1, topo=0, tables='both', mode='twice-reparam', cost=60)
     add("ext:angle:map-later-atom", Ns=3, No=3, kind='angle', S=1, topo=1, tables='both', mode='default', cost=60)
     if big:
         add("ext:bond:S2xO2:map", Ns=4, No=3, kind='bond', S=2, topo=0, tables='both', mode='default', cost=600)
@@ -142,6 +151,28 @@ def body(ctx, p):
         m2 = build_map(ctx, No, sp2.N, 'b')
         a.extend(o, offsets=offs, structure_index_map=dict(m2))
         check_extend(ctx, sp2, so, m2, a, shared_offsets=offs, types_already_merged=(sp, so), label='2nd: ')
+    elif p['mode'] == 'bigmap':
+        # targets: distinct existing atoms, highest first (so mapped atoms are not in the fragment's own order)
+        m = {oi: Ns - 1 - oi for oi in range(p['nmapped'])}
+        a.extend(o, structure_index_map=dict(m))
+        check_extend(ctx, sp, so, m, a, shared_offsets=None)
+    elif p['mode'] == 'twice-reparam':
+        m1 = build_map(ctx, No, Ns, 'a')
+        a.extend(o, structure_index_map=dict(m1))
+        check_extend(ctx, sp, so, m1, a, shared_offsets=None, label='1st: ')
+        # re-parameterise the SAME object
+        o.atom_type_labels = [str(x) + "_v2" for x in o.atom_type_labels]
+        o.atom_type_elements = [str(x) + "b" for x in o.atom_type_elements]
+        o.atom_type_masses = np.array([float(x) + 0.25 for x in o.atom_type_masses])
+        if len(o.pair_coeffs):
+            o.pair_coeffs = np.array([str(x) + " v2" for x in o.pair_coeffs])
+        setattr(o, COEFF_ATTR[kind], np.array([str(x) + " v2" for x in getattr(o, COEFF_ATTR[kind])] + [f"o{kind}extra 9.0 9.0"]))
+        so2 = spec_from_state(o)
+        o_before = so2
+        sp2 = spec_from_state(a)
+        m2 = build_map(ctx, No, sp2.N, 'b')
+        a.extend(o, structure_index_map=dict(m2))
+        check_extend(ctx, sp2, so2, m2, a, shared_offsets=None, label='2nd (fragment re-parameterised): ')
     elif p['mode'] == 'twice-same-map':
         # the caller keeps ONE dict and passes it to two calls (grafting the same fragment twice onto the same atoms)
         offs = a.extend_types(o)
